@@ -25,7 +25,7 @@ class LoopSpec:
 class Contract:
     def __init__(self, qualname, params, requires=None, ensures=None, modifies=(), loops=(),
                  decreases=None, inline=False, lemmas=(), ghost=(), hints=(), configs=None,
-                 props=(), trusted=False, locals_types=None, raises=None, fresh=(), split=False, defs=None, assumes=(), late_hints=(), certificate=()):
+                 props=(), trusted=False, locals_types=None, raises=None, fresh=(), split=False, defs=None, assumes=(), late_hints=(), certificate=(), asserts=()):
         self.qualname = qualname
         self.params = params              # ordered {name: type}
         self.requires = requires or (lambda v: [])
@@ -43,6 +43,7 @@ class Contract:
         self.locals_types = locals_types or {}
         self.raises = raises              # lambda v: condition under which raising is allowed
         self.fresh = list(fresh)
+        self.asserts = list(asserts)         # in-line assertions: contract clauses stated at a program point (not proof hints)
         self.late_hints = list(late_hints)   # like hints, but processed after the lemmas of the same anchor
         self.assumes = list(assumes)  # (anchor, lambda v, old: [(name, term)]) instances of assumed external contracts
         self.defs = defs              # lambda v: [(name, term)] definitional axioms of ghost functions
